@@ -101,48 +101,91 @@ def AllOk (slowMin : Nat) (c : Chain) : State → List Op → Prop
   | _, [] => True
   | s, op :: ops => OutOk c s (step slowMin c s op).2 ∧ AllOk slowMin c (step slowMin c s op).1 ops
 
+/-- one step in a well-formed state: whatever the op, its output is fine (the chain `c` is the
+    one current at that moment) -/
+theorem step_out_ok (slowMin : Nat) (c : Chain)
+    (hmono : ∀ h1 h2, h1 ≤ h2 → c.oldS h2 = true → c.oldS h1 = true)
+    (s : State) (hg : Good s) (op : Op) : OutOk c s (step slowMin c s op).2 := by
+  cases op with
+  | fetch keep =>
+    have hi : ∃ d, fetchDecision slowMin (gateIn c s) = .ok d :=
+      fetch_total hg.stored hg.pruned hg.sampled hg.head
+    obtain ⟨d, hd⟩ := hi
+    cases d with
+    | idle w => simp [step, hd, OutOk]
+    | request r =>
+      have := fetch_request_spec (old := c.oldS) (i := gateIn c s) hg.stored hg.pruned
+        (fun x _ hw => by simpa [gateIn] using hw)
+        (fun h1 h2 hle _ _ ho => hmono h1 h2 hle ho) hd
+      simp only [step, hd, OutOk]
+      exact this
+  | insert r => simp only [step]; split <;> trivial
+  | prune h => simp only [step]; split <;> trivial
+  | sample h => simp only [step]; split <;> trivial
+  | setHead h => trivial
+  | setSlow h => trivial
+  | setPeers n => trivial
+  | setBatch n => trivial
+  | cancel => trivial
+  | deliver ok =>
+    simp only [step]
+    split
+    · trivial
+    · split
+      · trivial
+      · split <;> trivial
+
 /-- **C25, every history.**  Start from any well-formed state (e.g. the empty one) and apply ANY
     finite sequence of: insertions of any range by anybody, pruning of ANY stored height,
     sampling marks, head announcements, slow-sync heights, peer changes, batch-size changes,
     fetch decisions (kept or cancelled), cancellations, delivered or failed batches — in any
     order.  No fetch decision along the run requests a batch below a synced (stored or pruned)
     header older than the sampling window, and none panics.  Only assumption on the chain:
-    header age is monotone in the height. -/
+    header age is monotone in the height.  (The clock is frozen along this history; see
+    `history_with_ageing_never_below_old_synced_header` for histories in which time passes.) -/
 theorem history_never_below_old_synced_header (slowMin : Nat) (c : Chain)
     (hmono : ∀ h1 h2, h1 ≤ h2 → c.oldS h2 = true → c.oldS h1 = true) :
     ∀ (ops : List Op) (s : State), (∀ op ∈ ops, OpWf op) → Good s → AllOk slowMin c s ops
   | [], _, _, _ => trivial
-  | op :: ops, s, hwf, hg => by
-    refine ⟨?_, history_never_below_old_synced_header slowMin c hmono ops _
+  | op :: ops, s, hwf, hg =>
+    ⟨step_out_ok slowMin c hmono s hg op,
+     history_never_below_old_synced_header slowMin c hmono ops _
       (fun o ho => hwf o (List.mem_cons_of_mem _ ho)) (step_good hg (hwf op (by simp)))⟩
-    cases op with
-    | fetch keep =>
-      have hi : ∃ d, fetchDecision slowMin (gateIn c s) = .ok d :=
-        fetch_total hg.stored hg.pruned hg.sampled hg.head
-      obtain ⟨d, hd⟩ := hi
-      cases d with
-      | idle w => simp [step, hd, OutOk]
-      | request r =>
-        have := fetch_request_spec (old := c.oldS) (i := gateIn c s) hg.stored hg.pruned
-          (fun x _ hw => by simpa [gateIn] using hw)
-          (fun h1 h2 hle _ _ ho => hmono h1 h2 hle ho) hd
-        simp only [step, hd, OutOk]
-        exact this
-    | insert r => simp only [step]; split <;> trivial
-    | prune h => simp only [step]; split <;> trivial
-    | sample h => simp only [step]; split <;> trivial
-    | setHead h => trivial
-    | setSlow h => trivial
-    | setPeers n => trivial
-    | setBatch n => trivial
-    | cancel => trivial
-    | deliver ok =>
-      simp only [step]
-      split
-      · trivial
-      · split
-        · trivial
-        · split <;> trivial
+
+/-- every output along a run in which TIME PASSES: each op comes with the time classes of the
+    headers at the moment it is executed, and its output is judged against those -/
+def AllOkAgeing (slowMin : Nat) : State → List (Chain × Op) → Prop
+  | _, [] => True
+  | s, (c, op) :: rest =>
+    OutOk c s (step slowMin c s op).2 ∧ AllOkAgeing slowMin (step slowMin c s op).1 rest
+
+/-- **C25, every history, with the clock running.**  As `history_never_below_old_synced_header`,
+    but every operation is executed under its OWN classification of the headers into "older than
+    the sampling window" / "at or before the pruning cutoff" (`Chain`): headers age between a
+    request and its response, between a pruning and the next decision, … .  The classifications
+    need not even be related to one another; each is only assumed monotone in the height.  Every
+    fetch decision is judged against the classification current when it is taken. -/
+theorem history_with_ageing_never_below_old_synced_header (slowMin : Nat) :
+    ∀ (ops : List (Chain × Op)) (s : State),
+      (∀ p ∈ ops, (∀ h1 h2, h1 ≤ h2 → p.1.oldS h2 = true → p.1.oldS h1 = true) ∧ OpWf p.2) →
+      Good s → AllOkAgeing slowMin s ops
+  | [], _, _, _ => trivial
+  | (c, op) :: ops, s, hwf, hg =>
+    ⟨step_out_ok slowMin c (hwf (c, op) (by simp)).1 s hg op,
+     history_with_ageing_never_below_old_synced_header slowMin ops _
+      (fun o ho => hwf o (List.mem_cons_of_mem _ ho)) (step_good hg (hwf (c, op) (by simp)).2)⟩
+
+/-- non-vacuity: a request taken while the bound 201 is inside the window (edge 200), thirty days
+    pass (edge 230), the batch arrives, the bound 171 of the next batch is now outside: nothing -/
+example :
+    let c0 : Chain := { oldS := fun h => decide (h ≤ 200), oldP := fun _ => false }
+    let c1 : Chain := { oldS := fun h => decide (h ≤ 230), oldP := fun _ => false }
+    let ops : List (Chain × Op) :=
+      [(c0, .insert (201, 300)), (c0, .setHead 300), (c0, .setPeers 1), (c0, .setBatch 30),
+       (c0, .fetch true), (c1, .deliver true), (c1, .fetch false)]
+    (ops.foldl (fun (acc : State × List Out) p =>
+        let r := step 50 p.1 acc.1 p.2; (r.1, acc.2 ++ [r.2])) ({}, [])).2.drop 4 =
+      [.decision (.request (171, 200)), .ok, .decision (.idle .boundOutsideWindow)] := by decide
 
 /-- the initial state of the transition system meets the invariant (non-vacuity of `Good`) -/
 example : Good ({} : State) :=
